@@ -4,6 +4,7 @@
            then exactly one result line.
    Atoms: decimal numbers, hex octet strings written x<hex> (x alone = empty), symbols. *)
 open Model
+type bytes = byte list
 
 (* ---------- conversions between OCaml values and extracted Coq datatypes ---------- *)
 let byte_of_int (i : int) : byte = Obj.magic i
